@@ -341,6 +341,23 @@ def _schema():
     return _copy.deepcopy(corpus.SCHEMA)
 
 
+NEEDS_QUALIFIED = {"pushdown_projections", "unnest_subqueries", "pushdown_predicates", "optimize_joins", "eliminate_subqueries", "merge_subqueries",
+                   "eliminate_joins", "eliminate_ctes"}
+
+
+def _is_qualified(t, dialect):
+    """True iff qualification is a no-op on the tree (it is already qualified against the harness schema)."""
+    from sqlglot.optimizer.qualify import qualify
+
+    try:
+        q = qualify(t.copy(), schema=_schema(), dialect=dialect)
+        return q.sql(dialect=dialect) == t.sql(dialect=dialect)
+    except RecursionError:
+        raise
+    except Exception:
+        return False
+
+
 def _parser_reachable(t, dialect):
     """True iff the tree is exactly what the parser produces from the tree's own SQL in `dialect`."""
     import sqlglot
@@ -731,6 +748,11 @@ def _apply(world, op, st):
         if not _parser_reachable(t, d):
             # rules are only promised to work on trees the parser could have produced (in the dialect they are told)
             res["outcome"] = "skip-unreachable"
+            res["targets"] = set(); res["mut_tree"] = None; res["nm"] = [t]
+            return res
+        if op["rule"] in NEEDS_QUALIFIED and not _is_qualified(t, d):
+            # the optimizer's contract: every rule after `qualify` assumes qualified tables and columns
+            res["outcome"] = "skip-unqualified"
             res["targets"] = set(); res["mut_tree"] = None; res["nm"] = [t]
             return res
         st["counters"]["rule_applied"] += 1
